@@ -117,10 +117,8 @@ func (c *channel) cancelPendingMsgs() {
 	defer c.responseMut.Unlock()
 	for msgID, router := range c.responseRouters {
 		router.c <- response{nid: c.node.ID(), err: streamDownErr}
-		// delete the router if we are only expecting a single reply message
-		if !router.streaming {
-			delete(c.responseRouters, msgID)
-		}
+		// the stream is down: no further reply to this request can arrive
+		delete(c.responseRouters, msgID)
 	}
 }
 
@@ -129,8 +127,9 @@ func (c *channel) routeResponse(msgID uint64, resp response) {
 	defer c.responseMut.Unlock()
 	if router, ok := c.responseRouters[msgID]; ok {
 		router.c <- resp
-		// delete the router if we are only expecting a single reply message
-		if !router.streaming {
+		// delete the router if we are only expecting a single reply message,
+		// or if this is an error: an error is the node's last answer to a request
+		if !router.streaming || resp.err != nil {
 			delete(c.responseRouters, msgID)
 		}
 	}
